@@ -17,7 +17,7 @@ import tempfile
 import time
 
 ROOT = os.path.dirname(os.path.dirname(os.path.abspath(__file__)))
-PY = os.path.join(ROOT, ".venv", "bin", "python")
+PY = "/verif/.venv/bin/python"
 KNOWN = os.path.join(ROOT, "known_findings.json")
 EVID = os.path.join(ROOT, "evidence")
 MAX_KNOWN_ROUNDS = 8
